@@ -91,7 +91,7 @@ type Stub struct {
 	srv      *http.Server
 
 	DialMode string // "" ok | "refused" | "blackhole"
-	Health   string // "" ok(200) | "500" | "hang" | "reset"
+	Health   string // "" ok(200) | "500" | "hang" | "hang-body" | "reset"
 	conns    int
 }
 
@@ -153,6 +153,16 @@ func (s *Stub) ServeHTTP(rw http.ResponseWriter, r *http.Request) {
 			rw.Write([]byte("unhealthy"))
 		case "hang":
 			o.Outcome = "hang"
+			<-r.Context().Done()
+			o.CtxDone = true
+		case "hang-body":
+			// headers arrive, the body never does: the probe fails while reading the body
+			o.Outcome = "hang"
+			rw.Header().Set("Content-Length", "2")
+			rw.WriteHeader(200)
+			if f, ok := rw.(http.Flusher); ok {
+				f.Flush()
+			}
 			<-r.Context().Done()
 			o.CtxDone = true
 		case "reset":
@@ -293,6 +303,14 @@ func (s *Stub) ServeHTTP(rw http.ResponseWriter, r *http.Request) {
 // review applies the cluster's review mode; false = already answered.
 func (s *Stub) review(rw http.ResponseWriter, r *http.Request, o *UpObs, key string) bool {
 	switch s.Cluster.ReviewMode {
+	case "500-sar-once":
+		// the next SubjectAccessReview fails, later ones are answered
+		if strings.HasPrefix(key, "sar:") {
+			s.Cluster.ReviewMode = ""
+			s.W.R.Fault("review_transient_failure")
+			writeJSON(rw, 500, statusObj(500, metav1.StatusReasonInternalError, "review backend failure"))
+			return false
+		}
 	case "500":
 		writeJSON(rw, 500, statusObj(500, metav1.StatusReasonInternalError, "review backend failure"))
 		return false
